@@ -19,6 +19,8 @@ import (
 	"sync/atomic"
 	"time"
 
+	"crypto/ecdh"
+	crand "crypto/rand"
 	"crypto/x509"
 
 	utls "github.com/refraction-networking/utls"
@@ -957,6 +959,183 @@ func runCBCRecords(c *vh.Ctx, r *rand.Rand) {
 					c.Count("cbc-run/" + ver.name)
 				} else {
 					c.Count("cbc-no-handshake/" + ver.name)
+				}
+			}
+		}
+	}
+}
+
+// ---------- (A4) extensions whose server-side handling keeps state between hello #1 and hello #2 ----------
+// encrypted_client_hello (the server remembers the form / HPKE context of the first hello) and pre_shared_key, in every
+// (form in hello #1, form in hello #2) pair across a server-issued HelloRetryRequest, against servers without and with
+// an ECH configuration.
+
+type extForm struct {
+	name string
+	data func(r *rand.Rand) []byte // nil = extension absent
+}
+
+func echForms() []extForm {
+	outer := func(kdf, aead, cfg int, enc, payload []byte) []byte {
+		b := []byte{0, byte(kdf >> 8), byte(kdf), byte(aead >> 8), byte(aead), byte(cfg)}
+		b = append(b, u16lp(enc)...)
+		return append(b, u16lp(payload)...)
+	}
+	return []extForm{
+		{"absent", func(r *rand.Rand) []byte { return nil }},
+		{"inner", func(r *rand.Rand) []byte { return []byte{1} }},
+		{"outer-all-zero", func(r *rand.Rand) []byte { return outer(0, 0, 0, nil, make([]byte, 32)) }},
+		{"outer-all-zero-empty-payload", func(r *rand.Rand) []byte { return outer(0, 0, 0, nil, nil) }},
+		{"outer-short", func(r *rand.Rand) []byte { return []byte{0, 0, 1} }},
+		{"outer-wellformed-first", func(r *rand.Rand) []byte { return outer(1, 1, r.Intn(256), rbytes(r, 32), rbytes(r, 120)) }},
+		{"outer-wellformed-second", func(r *rand.Rand) []byte { return outer(1, 1, r.Intn(256), nil, rbytes(r, 120)) }},
+		{"inner-with-trailing-byte", func(r *rand.Rand) []byte { return []byte{1, 0} }},
+		{"unknown-type", func(r *rand.Rand) []byte { return []byte{2, 0, 0} }},
+		{"empty", func(r *rand.Rand) []byte { return []byte{} }},
+	}
+}
+
+func pskForms() []extForm {
+	mk := func(label, n int) func(r *rand.Rand) []byte {
+		return func(r *rand.Rand) []byte {
+			var ids, bs []byte
+			for i := 0; i < n; i++ {
+				ids = append(ids, u16lp(rbytes(r, label))...)
+				ids = append(ids, rbytes(r, 4)...)
+				bs = append(bs, 32)
+				bs = append(bs, rbytes(r, 32)...)
+			}
+			return append(u16lp(ids), u16lp(bs)...)
+		}
+	}
+	return []extForm{
+		{"absent", func(r *rand.Rand) []byte { return nil }},
+		{"one-identity", mk(40, 1)},
+		{"two-identities", mk(17, 2)},
+		{"long-identity", mk(900, 1)},
+	}
+}
+
+// echServerKeys builds one well-formed ECHConfig (DHKEM(X25519), HKDF-SHA256, AES-128-GCM) and its private key.
+func echServerKeys() []utls.EncryptedClientHelloKey {
+	priv, err := ecdh.X25519().GenerateKey(crand.Reader)
+	if err != nil {
+		return nil
+	}
+	var body []byte
+	body = append(body, 7)       // config_id
+	body = append(body, 0, 0x20) // kem_id
+	body = append(body, u16lp(priv.PublicKey().Bytes())...)
+	body = append(body, u16lp([]byte{0, 1, 0, 1})...) // cipher suites: (HKDF-SHA256, AES-128-GCM)
+	body = append(body, 32)                           // maximum_name_length
+	name := []byte("public.c34.test")
+	body = append(body, byte(len(name)))
+	body = append(body, name...)
+	body = append(body, 0, 0) // extensions
+	cfg := append([]byte{0xfe, 0x0d}, u16lp(body)...)
+	return []utls.EncryptedClientHelloKey{{Config: cfg, PrivateKey: priv.Bytes(), SendAsRetry: true}}
+}
+
+func runStatefulExtsAfterHRR(c *vh.Ctx, r *rand.Rand) {
+	var bases [][]byte
+	for _, id := range []utls.ClientHelloID{utls.HelloGolang, utls.HelloChrome_133, utls.HelloFirefox_120} {
+		if raw, err := buildHello(id, "c34.test"); err == nil && len(raw) > 0 {
+			bases = append(bases, raw)
+		}
+	}
+	if len(bases) == 0 {
+		return
+	}
+	echKeys := echServerKeys()
+	type family struct {
+		name  string
+		id    uint16
+		forms []extForm
+		last  bool // the extension must be the last one (pre_shared_key)
+	}
+	fams := []family{{"ech", 0xfe0d, echForms(), false}, {"psk", 41, pskForms(), true}}
+	servers := []string{"no-ech-config", "ech-config"}
+	k := 0
+	for _, fam := range fams {
+		for si, srv := range servers {
+			for i1, f1 := range fam.forms {
+				for i2, f2 := range fam.forms {
+					if fam.name == "psk" && si == 1 {
+						continue
+					}
+					if si == 1 && c.Tier == "quick" && (i1+i2)%3 != 0 {
+						continue // quick tier: a third of the grid against the ECH-configured server
+					}
+					k++
+					base := bases[k%len(bases)]
+					ensure := []uint16{23, 29}
+					build := func(group uint16, n int, f extForm) ([]byte, bool) {
+						h, ok := keyShareHello(r, base, group, n, "last", ensure...)
+						if !ok {
+							return nil, false
+						}
+						w, ok := splitHello(h)
+						if !ok {
+							return nil, false
+						}
+						var exts []wext
+						for _, x := range w.exts {
+							if x.id != fam.id && x.id != 21 {
+								exts = append(exts, x)
+							}
+						}
+						if fam.last { // psk_key_exchange_modes for both hellos, whether or not a PSK follows
+							found := false
+							for i := range exts {
+								if exts[i].id == 45 {
+									exts[i].data, found = []byte{1, 1}, true
+								}
+							}
+							if !found {
+								exts = append([]wext{{45, []byte{1, 1}}}, exts...)
+							}
+						}
+						if d := f.data(r); d != nil {
+							if fam.last {
+								exts = append(exts, wext{fam.id, d})
+							} else {
+								n := len(exts)
+								exts = append(exts[:n-1:n-1], wext{fam.id, d}, exts[n-1])
+							}
+						}
+						w.exts = exts
+						return w.bytes(0, 0), true
+					}
+					h1, ok1 := build(23, 65, f1)
+					h2, ok2 := build(29, 32, f2)
+					if !ok1 || !ok2 {
+						continue
+					}
+					cfg := serverConfig(srvCfgs[0])
+					cfg.CurvePreferences = []utls.CurveID{utls.X25519}
+					if si == 1 {
+						cfg.EncryptedClientHelloKeys = echKeys
+					}
+					s1, s2 := record(22, 0x0301, h1), record(22, 0x0303, h2)
+					gotHRR := false
+					res, hung := withServer(cfg, func(conn net.Conn) {
+						conn.Write(s1)
+						flight := readFlight(conn)
+						gotHRR = len(flight) > 5 && flight[0] == 22
+						conn.SetDeadline(time.Now().Add(deadline))
+						conn.Write(s2)
+						if tc, ok := conn.(*net.TCPConn); ok {
+							tc.CloseWrite()
+						}
+					})
+					key := fmt.Sprintf("hello/hrr-%s/%s/%s-then-%s", fam.name, srv, f1.name, f2.name)
+					judge(c, key, append(append([]byte{}, s1...), s2...), res, hung,
+						fmt.Sprintf("server %s; hello #1 (P-256 share, %s = %s) -> HelloRetryRequest -> hello #2 (X25519 share, %s = %s)", srv, fam.name, f1.name, fam.name, f2.name))
+					if gotHRR {
+						c.Count("hrr-" + fam.name + "-run/" + srv)
+					} else {
+						c.Count("hrr-" + fam.name + "-no-hrr/" + srv)
+					}
 				}
 			}
 		}
